@@ -140,6 +140,35 @@ def full_address_space(spec_failures, dist, quick):
                                   "program": "SET(R5, %d) BR(R5) NOP() x %d CALL(R12, R1)" % (total - 1, total - 4)})
 
 
+def full_data_space(spec_failures, dist):
+    """Data segments sized through chained constants, literal and repeated DSKIPs, that end around the top of memory:
+    if the tool accepts the program, the machine it loads still has at most 2^16 cells, each a word (seed C02g: the
+    label pass stopped counting `DSKIP(B)` when B was defined through another constant)."""
+    from hera.data import Settings
+    from hera.loader import load_program
+    from hera.vm import VirtualMachine
+    texts = ["CONSTANT(A, 8000)\nCONSTANT(B, A)\nDSKIP(B)\nDSKIP(B)\nDSKIP(B)\nINTEGER(7)\nSET(R1, 1)\n",
+             "CONSTANT(A, 8000)\nCONSTANT(B, A)\nDSKIP(B)\nDSKIP(B)\nINTEGER(7)\nSET(R1, 1)\n",
+             "CONSTANT(A, 16383)\nCONSTANT(B, A)\nCONSTANT(C, B)\nDSKIP(C)\nDLABEL(top)\nINTEGER(9)\nSET(R1, top)\nLOAD(R2, 0, R1)\n",
+             "CONSTANT(A, 16382)\nCONSTANT(B, A)\nDSKIP(B)\nDLABEL(top)\nINTEGER(9)\nSET(R1, top)\nSTORE(R2, 0, R1)\n",
+             "DSKIP(16000)\nCONSTANT(K, 400)\nCONSTANT(L, K)\nDSKIP(L)\nLP_STRING(\"abc\")\nSET(R1, 1)\n"]
+    for text in texts:
+        st = Settings()
+        st.throttle = 50
+        prog, exc, _, _ = run_real(lambda: load_program(text, st))
+        dist["data_space_programs"] = dist.get("data_space_programs", 0) + 1
+        if exc == "SystemExit" or prog is None:
+            continue
+        if exc:
+            spec_failures.append({"what": "loading %r raised %s" % (text[:60], exc)})
+            continue
+        vm = VirtualMachine(st)
+        _, exc, _, _ = run_real(lambda: vm.run(prog))
+        bad = ("raised %s" % exc) if exc else wf_snapshot(snapshot_vm(vm))
+        if bad:
+            spec_failures.append({"what": "accepted program with a large data segment: %s" % bad, "program": text})
+
+
 def after_the_end(spec_failures, dist):
     """Commands that keep going once control has left the program: no exception, nothing fetched outside the
     program, machine still well-formed (seed C02d: `continue` lost its finished() guard)."""
@@ -307,6 +336,7 @@ def correspondence(ctx, model_available=True):
     dsessions = debugger_histories(rng, 30 if quick else 400, spec_failures, dist)
     after_the_end(spec_failures, dist)
     full_address_space(spec_failures, dist, quick)
+    full_data_space(spec_failures, dist)
     if model_available:
         dres = dp.correspondence("C02d", dsessions, True, check_history=False)
         disagreements += dres["disagreements"]
